@@ -50,7 +50,7 @@ theorem post_of_dpost {H : List Lk} {s s0 s' : St K V} {fl : Flow K V}
     tree invariant (with the thread's own hole) runs without panic up to the next park and
     re-establishes the invariant with the hole the new park prescribes. -/
 theorem resume_post_D (P : Params K) (t : Nat) (s : St K V) (k : Kont K V) (H : List Lk)
-    (hd : isDelK k = true)
+    (hd : isDelK k = true) (h4 : 4 ≤ s.tree.order)
     (hpre : Pre P (kontHole k) s) (hk : KontOk s.tree k) (hkp : KontPre s.cursor k)
     (hcov : Covers H s.cursor k) :
     Post H (flowHole (resume P t s k).2) s (resume P t s k).1 (resume P t s k).2 := by
@@ -82,7 +82,7 @@ theorem resume_post_D (P : Params K) (t : Nat) (s : St K V) (k : Kont K V) (H : 
     apply post_of_dpost (s := s) (s0 := s.acq t (.node r)) rfl rfl hcur htree
     simp only [resume]
     have hk' : r = s.tree.rootId := hk
-    exact delGo_post P hpre.pad t key r H _ hkeep hr (s.acq t (.node r)) [] r hpre.tree hpre.order hk' rfl
+    exact delGo_post P hpre.pad t key r H _ hkeep hr (s.acq t (.node r)) [] r hpre.tree h4 hpre.order hk' rfl
       (by intro l hl; cases hl)
   | delLeft key frames node index left root =>
     have htree : Lk.tree ∈ H := hheld _ (by simp [kontHeld])
@@ -103,7 +103,7 @@ theorem resume_post_D (P : Params K) (t : Nat) (s : St K V) (k : Kont K V) (H : 
     apply post_of_dpost (s := s) (s0 := s.acq t (.node child)) rfl rfl hcur htree
     simp only [resume]
     refine delGo_post P hpre.pad t key root H _ hkeep hrootH (s.acq t (.node child))
-      (⟨node, index, left, child⟩ :: frames) child hpre.tree hpre.order hroot ⟨rfl, hfrm, hfr⟩ ?_
+      (⟨node, index, left, child⟩ :: frames) child hpre.tree h4 hpre.order hroot ⟨rfl, hfrm, hfr⟩ ?_
     intro l hl
     simp only [framesHeld, List.mem_append, List.mem_singleton] at hl
     rcases hl with hl | hl | hl
@@ -118,7 +118,7 @@ theorem resume_post_D (P : Params K) (t : Nat) (s : St K V) (k : Kont K V) (H : 
     simp only [resume]
     have hok : TreeOk (some fr.child) s.tree := hpre.tree
     refine delRightArrive_post P hpre.pad t key root H _ hkeep hrootH (s.acq t (.node right)) rest fr right
-      ⟨by simpa using hok.prime, hpre.order, hroot, hfr, fun _ => hsm⟩ ?_ hr (hlock _ rfl)
+      ⟨by simpa using hok.prime h4, hpre.order, hroot, hfr, fun _ => hsm⟩ ?_ hr (hlock _ rfl)
     intro l hl
     exact hheld _ (by simp only [kontHeld, List.mem_cons]; right; right; exact hl)
 
